@@ -241,8 +241,14 @@ def corpus(tier):
     # keep the cache small: drop world descriptions of clean random worlds beyond the first 20
     with open(path, "w") as f:
         json.dump(out, f)
-    for fn in os.listdir(CACHE_DIR):  # keep only the newest few caches
-        pass
+    # keep only the newest few corpus caches
+    olds = sorted((os.path.join(CACHE_DIR, fn) for fn in os.listdir(CACHE_DIR) if fn.startswith("simcorpus_")),
+                  key=os.path.getmtime)
+    for fn in olds[:-6]:
+        try:
+            os.remove(fn)
+        except OSError:
+            pass
     return out
 
 
